@@ -1,6 +1,7 @@
 package main
 
 import (
+	"regexp"
 	"encoding/json"
 	"flag"
 	"fmt"
@@ -19,6 +20,7 @@ type PropConfig struct {
 	Packages   []string `json:"packages"`
 	Functions  []string `json:"functions"` // contract keys, module-relative: data/basics.OAdd
 	Lemmas     []string `json:"lemmas"`
+	Owns       []string `json:"owns"`
 	NotCovered string   `json:"not_covered"`
 	TimeoutS   int      `json:"timeout_s"`
 	Trusted    []string `json:"trusted_base"`
@@ -72,6 +74,27 @@ func main() {
 		fmt.Fprintln(os.Stderr, "unknown command", cmd)
 		os.Exit(2)
 	}
+}
+
+var (
+	reExitOrd = regexp.MustCompile(`@exit\d+$`)
+	reSiteOrd = regexp.MustCompile(`#\d+$`)
+)
+
+// pinStem maps an obligation name to the contract line it comes from, or "" when the obligation is
+// derived from the code alone (no-panic, callee precondition, frame, ownership sites).
+func pinStem(name string) string {
+	switch {
+	case name == "":
+		return ""
+	case strings.Contains(name, "#ensures:"):
+		return reExitOrd.ReplaceAllString(name, "@exit*")
+	case strings.Contains(name, "#assert:"):
+		return reSiteOrd.ReplaceAllString(name, "#*")
+	case strings.Contains(name, "#loop:"), strings.Contains(name, ".lemma:"), strings.HasSuffix(name, "#bind"):
+		return name
+	}
+	return ""
 }
 
 func envOr(k, d string) string {
@@ -187,6 +210,14 @@ func runCheck(cmd, prop, tier, repo, root, only string, keep, verbose, writeExpe
 			continue
 		}
 		lemmaObls = append(lemmaObls, lo...)
+	}
+	for _, on := range cfg.Owns {
+		oo, err := ownsObligations(w, specs, modPath+"/"+on)
+		if err != nil {
+			results = append(results, &FuncResult{Name: "owns:" + on, Key: on, BindErr: err.Error()})
+			continue
+		}
+		lemmaObls = append(lemmaObls, oo...)
 	}
 	tGen := time.Since(t0) - tLoad
 
@@ -334,21 +365,29 @@ func runCheck(cmd, prop, tier, repo, root, only string, keep, verbose, writeExpe
 	vwg.Wait()
 
 	// expected obligations
+	// The pinned list is compared by stem: contract-derived obligations (ensures, loop invariants, call-site
+	// assertions, lemmas) must still be generated for each contract line, at one exit or site at least;
+	// exit and site ordinals, and the code-derived safety and frame obligations, may come and go with
+	// harmless edits and are not pinned.
 	have := map[string]bool{}
 	for _, o := range all {
-		have[o.Name] = true
+		if st := pinStem(o.Name); st != "" {
+			have[st] = true
+		}
 	}
 	var missing []string
 	if eb, err := os.ReadFile(filepath.Join(root, "expected", prop+".obligations")); err == nil {
+		seen := map[string]bool{}
 		for _, ln := range strings.Split(string(eb), "\n") {
-			ln = strings.TrimSpace(ln)
-			if ln == "" || have[ln] {
+			st := pinStem(strings.TrimSpace(ln))
+			if st == "" || have[st] || seen[st] {
 				continue
 			}
+			seen[st] = true
 			if only != "" {
 				continue
 			}
-			missing = append(missing, ln)
+			missing = append(missing, st)
 		}
 	} else if only == "" {
 		fmt.Printf("BROKEN: expected/%s.obligations missing\n", prop)
